@@ -301,10 +301,30 @@ Fixpoint find_blocked_thread (fuel : nat) (g : dgraph) (query : key) (new_owner_
     end
   end.
 
-(* DependencyGraph::unblock_transfer_target, dependency_graph.rs:363-402 *)
+(* fn find_new_owner_thread (repair of the circular-blocked-edges defect): the new owner's thread
+   itself, among the threads blocked on [query] or on a query transferred to it (recursively) *)
+Fixpoint find_new_owner_thread (fuel : nat) (g : dgraph) (query : key) (new_owner_id : thread)
+  : R (option (key * nat)) :=
+  match fuel with
+  | O => RErr EFuel
+  | S f =>
+    match position new_owner_id (qdeps g query) with
+    | Some i => ROk (Some (query, i))
+    | None =>
+      find_mapM (fun dependent => find_new_owner_thread f g dependent new_owner_id)
+                (match tdeps g query with Some l => l | None => [] end)
+    end
+  end.
+
+(* DependencyGraph::unblock_transfer_target, dependency_graph.rs:363-402: the new owner's own
+   thread first, only otherwise a thread it (transitively) waits for *)
 Definition unblock_transfer_target (fuel : nat) (g : dgraph) (source_query : key)
   (new_owner_id : thread) : R dgraph :=
-  r <- find_blocked_thread fuel g source_query new_owner_id ;;
+  r <- (r0 <- find_new_owner_thread fuel g source_query new_owner_id ;;
+        match r0 with
+        | Some x => ROk (Some x)
+        | None => find_blocked_thread fuel g source_query new_owner_id
+        end) ;;
   match r with
   | None => ROk g
   | Some (query, i) =>
